@@ -346,6 +346,22 @@ def derived_emptiness_fields(tu, q):
     return sorted(x for x in out if x in own and x not in EMPTINESS_SOURCES)
 
 
+def _writes_field(info, h, fld, depth=2, _seen=None):
+    _seen = _seen if _seen is not None else set()
+    if h.id in _seen:
+        return False
+    _seen.add(h.id)
+    if any(x['path'][:2] == ('this', '.' + fld) and x['how'] != 'guard' and (x['how'] in ('assign', '++', '--', '+=', '-=') or x['how'].startswith('call:'))
+           for x in info.writes(h)):
+        return True
+    if depth > 0:
+        for n in h.calls():
+            for k in h.callee_fns(n):
+                if k.kind == 'method' and queue_of(k) == queue_of(h) and _writes_field(info, k, fld, depth - 1, _seen):
+                    return True
+    return False
+
+
 def check_derived_emptiness(ctx, tu, info, q, rule):
     """Necessary condition for any state the emptiness tests read instead of (or besides) the list itself: every critical section that
     changes queueList also re-establishes that state before it ends - otherwise there is a moment (and, when no later writer comes, a
@@ -367,10 +383,34 @@ def check_derived_emptiness(ctx, tu, info, q, rule):
             if not derived:
                 continue
             for fld in derived:
-                refresh = [x for x in ws if x['path'][:2] == ('this', '.' + fld) and x['how'] != 'guard' and
-                           (x['how'] in ('assign', '++', '--', '+=', '-=') or x['how'].startswith('call:'))
-                           and (x['pos'] == w['pos'] or g.pos_reaches(w['pos'], x['pos']) or g.pos_reaches(x['pos'], w['pos']))
+                cand = [x for x in ws if x['path'][:2] == ('this', '.' + fld) and x['how'] != 'guard' and
+                        (x['how'] in ('assign', '++', '--', '+=', '-=') or x['how'].startswith('call:'))]
+                # ... or a member helper that writes it (`doAdjustCount(+1)`)
+                for cn in g.calls():
+                    for h in g.callee_fns(cn):
+                        if h.kind == 'method' and queue_of(h) == q and _writes_field(info, h, fld):
+                            cand.append({'node': cn, 'pos': g.pos(cn), 'how': 'helper:' + h.name, 'path': ('this', '.' + fld)})
+                refresh = [x for x in cand
+                           if (x['pos'] == w['pos'] or g.pos_reaches(w['pos'], x['pos']) or g.pos_reaches(x['pos'], w['pos']))
                            and {mutex_name(m) for m in si.node_held_must(x['node'])} & {mutex_name(m) for m in si.node_held_must(w['node'])}]
+                # the refreshed value must not be computed from a list that was emptied just before (`count += tempList.size()` after
+                # `queueList.splice(queueList.begin(), tempList)` adds nothing)
+                for x in refresh:
+                    for m in [x['node']] + g.descendants(x['node']):
+                        if not g.is_call(m) or (g.callee(m) or {}).get('name') not in ('size', 'empty') or not g.call_obj(m):
+                            continue
+                        lp = path(g, g.call_obj(m))
+                        if root_var_id(lp) is None:
+                            continue
+                        for c in ws:
+                            if c['path'] == lp and c['how'].startswith('arg:') and c['how'].endswith('splice') and len(g.call_args(c['node'])) == 2 \
+                                    and g.pos_dominates(c['pos'], g.pos(m)) and c['pos'] != g.pos(m) \
+                                    and not any(y['path'] == lp and y is not c and g.pos_reaches(c['pos'], y['pos']) and g.pos_reaches(y['pos'], g.pos(m)) for y in ws):
+                                ctx.ob(rule, g, 'the value written to %s is not taken from a list that was emptied just before' % fld, False,
+                                       detail='%s at %s is evaluated after the whole list was spliced away at %s: it is always %s, so %s does not account for the '
+                                              'events that were just linked' % (pstr(lp) + '.' + g.callee(m)['name'] + '()', g.nloc(m), g.nloc(c['node']),
+                                                                               '0' if g.callee(m)['name'] == 'size' else 'true', fld),
+                                       where=g.nloc(m), key_detail='%s from emptied list' % fld)
                 ctx.ob(rule, g, 'a critical section that changes queueList also refreshes %s, which the emptiness tests read' % fld, bool(refresh),
                        detail='%s at %s changes the list under the mutex, and nothing in that critical section writes %s: emptyQueue() / the wait predicate '
                               'then answer for a list that is no longer the one held (an event pending but reported empty, a waiter never released)'
